@@ -10,13 +10,13 @@ import (
 // produce: just opened (offset 0), after an append (offset = size), or
 // after a rollback (offset beyond the size).
 func vpPrepareBlockStore(db *vpDB, w *vpWorld, n int, regime int) (*blockHeaderStore, []wire.BlockHeader) {
+	w.prepareGenesis() // zeroFirst is false here: the all-zero index prefix is the ops harnesses' case
 	params := vpParams()
 	st := vpOpenBlockStore(db, params)
 	if st == nil {
 		return nil, nil
 	}
 	model := []wire.BlockHeader{vpGenesisHeader()}
-	w.admit(model[0].BlockHash())
 	extra := 0
 	if regime == 2 {
 		extra = 1
